@@ -1,3 +1,125 @@
 package main
 
-func extraCommand(name string, args []string) bool { return false }
+import (
+	"bufio"
+	"encoding/json"
+	"flag"
+	"fmt"
+	"math/rand"
+	"os"
+	"path/filepath"
+	"strings"
+)
+
+// runLines executes prepared histories and writes ops.txt / impl.txt / stats.json.
+func runLines(dir string, hist [][]string) {
+	os.MkdirAll(dir, 0755)
+	fo, _ := os.Create(filepath.Join(dir, "ops.txt"))
+	fi, _ := os.Create(filepath.Join(dir, "impl.txt"))
+	bo, bi := bufio.NewWriterSize(fo, 1<<20), bufio.NewWriterSize(fi, 1<<20)
+	st := stats{OpKinds: map[string]int{}, ObsKinds: map[string]int{}}
+	w := newWorld()
+	seen := map[uint64]bool{}
+	for h, lines := range hist {
+		seen[fnv([]byte(strings.Join(lines, "\n")))] = true
+		for _, l := range lines {
+			fmt.Fprintln(bo, l)
+			bo.Flush()
+			o := w.Exec(l)
+			fmt.Fprintln(bi, o)
+			st.Ops++
+			st.OpKinds[opKind(l)]++
+			st.ObsKinds[obsKind(o)]++
+		}
+		if h < 2 {
+			for _, l := range lines {
+				if len(l) > 160 {
+					l = l[:160] + "..."
+				}
+				st.Samples = append(st.Samples, l)
+			}
+		}
+		st.Histories++
+		if w.dead {
+			break
+		}
+	}
+	st.Distinct = len(seen)
+	bo.Flush()
+	bi.Flush()
+	fo.Close()
+	fi.Close()
+	js, _ := json.MarshalIndent(st, "", " ")
+	os.WriteFile(filepath.Join(dir, "stats.json"), js, 0644)
+	if w.dead {
+		os.Exit(3)
+	}
+}
+
+// c16: whole-collection enumerations at every size.
+func cmdC16(args []string) {
+	fs := flag.NewFlagSet("c16", flag.ExitOnError)
+	seed := fs.Int64("seed", 1, "seed")
+	tier := fs.String("tier", "quick", "tier")
+	dir := fs.String("dir", ".", "output directory")
+	fs.Parse(args)
+	r := rand.New(rand.NewSource(*seed))
+	var sizes []int
+	for n := 0; n <= 70; n++ {
+		sizes = append(sizes, n)
+	}
+	sizes = append(sizes, 1023, 1024, 1025, 2047, 2048, 2049)
+	if *tier == "thorough" {
+		sizes = append(sizes, 3071, 3072, 3073, 5000, 4096, 1500)
+		for i := 0; i < 40; i++ {
+			sizes = append(sizes, 71+r.Intn(1000))
+		}
+	}
+	var hist [][]string
+	for _, n := range sizes {
+		name := []string{"a", "rv", "fo"}[r.Intn(3)]
+		var l []string
+		l = append(l, "reset", "cfg 0")
+		file := r.Intn(2) == 0 && n < 200
+		if file {
+			l = append(l, "open 1 1")
+		} else {
+			l = append(l, "mem 1")
+		}
+		hn := hx([]byte(name))
+		l = append(l, "setcoll 1 "+hn)
+		if n <= 70 && r.Intn(2) == 0 {
+			// random small keys with ties and deletes
+			g := &Gen{r: r, p: Profile{}, keyPrio: map[string]int{}, usedPrio: map[int]bool{}}
+			g.prioMode = r.Intn(5)
+			for i := 0; i < n; i++ {
+				k := []byte(fmt.Sprintf("%c%03d", 'a'+r.Intn(3), r.Intn(500)))
+				l = append(l, fmt.Sprintf("set 1 %s %s %s %d", hn, hx(k), hx(g.val()), g.prio(name, k)))
+			}
+		} else {
+			l = append(l, fmt.Sprintf("fill 1 %s %d", hn, n))
+		}
+		if file {
+			l = append(l, "flush 1")
+			if r.Intn(2) == 0 {
+				l = append(l, "close 1", "open 1 1")
+			}
+		}
+		l = append(l, "len 1 "+hn, "totals 1 "+hn)
+		for _, mg := range []string{"id", "rev", "rand"} {
+			l = append(l, fmt.Sprintf("blocks 1 %s %d %s", hn, r.Intn(2), mg))
+		}
+		l = append(l, "random 1 "+hn, "random 1 "+hn, "len 1 "+hn)
+		hist = append(hist, l)
+	}
+	runLines(*dir, hist)
+}
+
+func extraCommand(name string, args []string) bool {
+	switch name {
+	case "c16":
+		cmdC16(args)
+		return true
+	}
+	return false
+}
